@@ -185,8 +185,9 @@ class Check:
     # finding that no longer reproduces is reported as a note, not an alarm).
     for f in self.findings:
       if f.get('status', 'open') == 'open' and f.get('id') not in self._printed_known:
-        print(f'NOTE: listed finding {f.get("id")} of {self.prop} did not reproduce in this run '
-              f'(tier={self.tier})', flush=True)
+        # every listed (open) finding is announced; one that this tier / seed did not reach says so
+        print(f'KNOWN-FINDING: property={self.prop} {f.get("id")}: {f.get("what", "")} '
+              f'[not reproduced by this run: tier={self.tier} seed={self.seed}]', flush=True)
     if self.violations:
       seen = set()
       for v in self.violations:
